@@ -6,6 +6,7 @@ from .sorts import *      # noqa
 from . import types as Ty
 from . import front
 from .front import Unsupported
+from .state import class_seq
 from .state import tid, sel_L
 from .state import (SV, const_sv, truthy, shape, field_type, KIND, CLS, cls_in, new_list, new_dict,
                     new_list_from_seq, alloc, elem_type, int_of, str_of, val_of, ghost, GHOSTS)
@@ -148,6 +149,9 @@ def b_len(ex, st, args, kwargs, node):
         return [(st, I(z3.Length(sel_L(st, va(v.term)))))], []
     if isinstance(ty, (Ty.TDict, Ty.TSet)):
         return [(st, I(st.DSZ[va(v.term)]))], []
+    if isinstance(ty, Ty.TInst) and class_seq(ty.cls):
+        g, _ = class_seq(ty.cls)
+        return [(st, I(z3.Length(GHOSTS[g][0](v.term))))], []
     if isinstance(ty, Ty.TInst):
         owner, member = front.method_owner(ty.cls, '__len__')
         if owner is not None:
